@@ -261,6 +261,8 @@ class _NP:
 
     # constructors --------------------------------------------------------------
     def array(self, x, dtype=None, **_k):
+        if isinstance(x, list) and getattr(x, "sym", None) is not None:
+            x = x.sym                 # a list filled by one append per iteration of a generic loop
         if isinstance(x, SymArr):
             return x.copy()
         if isinstance(x, SymSeq):
@@ -271,6 +273,8 @@ class _NP:
         return a.copy() if a is x else a
 
     def asarray(self, x, dtype=None, **_k):
+        if isinstance(x, list) and getattr(x, "sym", None) is not None:
+            x = x.sym
         if isinstance(x, (SymArr,)):
             return x
         if isinstance(x, _np.ndarray) and x.dtype == object:
